@@ -51,6 +51,9 @@ type gHub struct {
 	// only, when not nil, restricts holding to the calls with these keys: every other call is logged and runs freely
 	// (deep pipelines in which only the last few calls before a CLOSE are held).
 	only map[string]bool
+	// never: calls of these methods (Op) are logged but never held (the modifying methods of the files of a
+	// read-only server: no request may reach them, and one that does must not stall the case).
+	never map[string]bool
 	// indexes over calls, so that pipelines of 10^5 calls do not cost a scan of the whole log per call
 	live   []*gCall // calls that have not returned yet (log order)
 	gates  []*gCall // calls that were held on entry (log order)
@@ -94,6 +97,9 @@ func (h *gHub) enter(op, obj, base string, numbered bool, off int64, buf []byte,
 		}
 	}
 	if h.only != nil && !h.only[key] {
+		c.gated = false
+	}
+	if h.never[op] {
 		c.gated = false
 	}
 	h.calls = append(h.calls, c)
